@@ -41,10 +41,10 @@ theorem step_ok (cfg : Cfg) (s s' : State) (e : Ev) (outs : List (List (List Nat
   | timer =>
     simp only [step] at h
     split at h
-    · cases h; exact ⟨hi, by simp [accepted]⟩
     · obtain ⟨h1, h2⟩ := seal_ok cfg _ _ _ h
       subst h1; subst h2
       exact ⟨⟨rfl, Or.inl rfl⟩, by simp [accepted]⟩
+    · cases h; exact ⟨hi, by simp [accepted]⟩
 
 theorem accepted_append (a b : List Ev) : accepted (a ++ b) = accepted a ++ accepted b := by
   induction a with
@@ -112,8 +112,8 @@ theorem step_no_panic (cfg : Cfg) (s : State) (e : Ev)
   | timer =>
     simp only [step]
     split
-    · exact ⟨_, rfl⟩
     · exact ⟨_, seal_no_panic cfg _ (h _)⟩
+    · exact ⟨_, rfl⟩
 
 theorem run_no_panic (cfg : Cfg) (s : State) (es : List Ev)
     (h : ∀ b, scanPanics cfg b = false) : ∃ r, run cfg s es = .ok r := by
